@@ -6,6 +6,7 @@ import tempfile
 
 from hypothesis import strategies as st
 
+from pbt import gen
 from pbt import ci as cim
 from pbt.runner import Violation, must, check
 from pbt.poison import poison
@@ -97,7 +98,7 @@ def roundtrip(case):
             must("dump-valid-object", obj.dump, path)
             with open(path) as fo:
                 text = fo.read()
-            again = ComposeInfo()
+            again = gen.give_past(ComposeInfo(), gen.past_of(text))
             must("load", again.load, path)
         elif case.get("stream"):
             # load() documents "file-like object or path": an open stream, possibly one that cannot be rewound
@@ -110,7 +111,7 @@ def roundtrip(case):
             must("validate-loaded", again.validate)
         else:
             text = must("dumps-valid-object", obj.dumps)
-            again = ComposeInfo()
+            again = gen.give_past(ComposeInfo(), gen.past_of(text))
             must("loads", again.loads, text)
     finally:
         if tmpdir:
